@@ -137,6 +137,10 @@ def isLoading (m : M) : Nat → Nat → Bool
     | none => false
     | some bd => bd.remaining > 0 || (match bd.parent with | some p => isLoading m fuel p | none => false)
 
+/-- `use_is_loading_global` (D9): some counter that is still alive is positive -/
+def globalLoading (m : M) : Bool :=
+  m.boundaries.any fun bd => scopeAlive m bd.counterScope && bd.remaining > 0
+
 inductive Ev where
   | complete (t : Nat)
   | dispose (s : Nat)
